@@ -137,7 +137,7 @@ pub fn components() -> serde_json::Value {
         "real": ["risinglight library end to end: parser, binder, egg optimizer, executors (one tokio task per operator), in-memory engine, on-disk engine (manifest, row-set writer/reader, block cache, delete vectors, version manager, compactor, vacuum)", "tokio runtime (current_thread; spawn_blocking jobs run inline on the scheduler thread, see vendor/tokio/RLSIM_PATCH.md)", "std::fs / tokio::fs on a tmpfs directory"],
         "simulated": ["clock (tokio paused time; the scheduler decides every advance)", "task interleaving at gates (seeded scheduler releases exactly one parked actor per decision)", "disk durability / crash / torn write / lost un-synced tail / I/O error / at-rest corruption (libc interposition + journal)", "OS entropy (getrandom(), getentropy() and syscall(SYS_getrandom) served from the seeded stream; ahash random source derived from the case seed; no ASLR) => hash-map iteration order"],
         "stub": [],
-        "absent": ["pgwire server / network", "CLI", "multi-threaded runtime preemption inside a poll"]
+        "absent": ["pgwire server / network", "CLI", "multi-threaded runtime preemption inside a poll (blocking-pool jobs run inline on the scheduler thread, except in the C15 COPY FROM scenario, whose reader thread is real)"]
     })
 }
 
